@@ -291,6 +291,19 @@ func checkC12() func(w *SketchWorld, slot int) []mc.Fail {
 				}
 			}
 		}
+		if sl.Exact && !bounded {
+			// the exact variant reports the exact extremes (C10); here only what C12
+			// states: within alpha of the true extremes of what was absorbed
+			tmin, tmax := math.Inf(1), math.Inf(-1)
+			for _, e := range md.Ent {
+				if e.W > 0 {
+					tmin, tmax = math.Min(tmin, e.V), math.Max(tmax, e.V)
+				}
+			}
+			if !(mn == tmin || matchesValue(wm, alpha, mn, tmin, "C12 extreme accuracy")) || !(mx == tmax || matchesValue(wm, alpha, mx, tmax, "C12 extreme accuracy")) {
+				fail("C12.extremes", "min=%v max=%v are not within alpha=%v of the true extremes %v and %v", mn, mx, alpha, tmin, tmax)
+			}
+		}
 		// quantiles: monotone, inside [min,max], batch == singles
 		qs := []float64{0, 5e-324, 0.01, 0.1, 0.25, 1.0 / 3, 0.5, 2.0 / 3, 0.75, 0.9, 0.99, 1 - math.Ldexp(1, -53), 1}
 		batch, berr := q.GetValuesAtQuantiles(qs)
